@@ -171,7 +171,14 @@ fn response_case(rng: &mut Rng, ctx: &mut Ctx) {
         steps.push(BStep::Trailers(tmap));
     }
     let accept: Option<&str> = *rng.pick(&[None, Some("application/grpc-web"), Some("application/grpc-web+proto"), Some("application/grpc-web-text"), Some("application/grpc-web-text+proto"), Some("*/*")]);
-    let text = matches!(accept, Some("application/grpc-web-text") | Some("application/grpc-web-text+proto"));
+    // what the Accept header asks for; when it asks for neither form (absent, */*) the form is the
+    // layer's choice and is read off the response's own content-type
+    let asked: Option<bool> = match accept {
+        Some("application/grpc-web-text") | Some("application/grpc-web-text+proto") => Some(true),
+        Some("application/grpc-web") | Some("application/grpc-web+proto") => Some(false),
+        _ => None,
+    };
+    let mut text = asked.unwrap_or(false);
     let ctype = *rng.pick(&["application/grpc-web", "application/grpc-web+proto", "application/grpc-web-text", "application/grpc-web-text+proto"]);
     let case_json = json!({"frames": frames.iter().map(|f| json!([f.0, f.1.len()])).collect::<Vec<_>>(), "trailers": trailers.iter().map(|(k, v)| json!([k, String::from_utf8_lossy(v)])).collect::<Vec<_>>(),
         "cut_style": format!("{:?}", style), "cuts": cuts.len(), "accept": accept, "content-type": ctype, "inner_sends_trailers": with_trailers});
@@ -208,6 +215,10 @@ fn response_case(rng: &mut Rng, ctx: &mut Ctx) {
         }
     };
     let (parts, body) = resp.into_parts();
+    if asked.is_none() {
+        text = parts.headers.get("content-type").map(|v| v.as_bytes().windows(4).any(|w| w == b"text")).unwrap_or(false);
+        ctx.count("resp.accept_asks_for_neither_form");
+    }
     let want_ct = if text { "application/grpc-web-text+proto" } else { "application/grpc-web+proto" };
     if parts.headers.get("content-type").map(|v| v.as_bytes()) != Some(want_ct.as_bytes()) {
         ctx.violation("response-content-type", format!("{:?}, want {}", parts.headers.get("content-type"), want_ct));
